@@ -27,7 +27,7 @@ CHECKS = {
     "C17": ("other", "Proved on the AST: to_json/__getstate__ assign nothing reachable from their parameters. Bounded: cache/serialise histories, SMT literal pickling, CLI JSON.", NOTE_MIX, MIX, "6/C17"),
     "C18": ("other", "Proved for all inputs from the real text of ISLaSolver.check/parse/repair: check(str) is true exactly when the string is a member and its parsed tree is judged TRUE, parse raises SyntaxError exactly for non-members and SemanticError exactly for members judged FALSE, check(tree) agrees with check(str) on the parser's tree, repair returns an accepted input unchanged, no other exception escapes -- over ASSUMED contracts of EarleyParser.parse (C10) and evaluate (C03). Bounded: the same relations end-to-end and mutate/repair results against independent oracles.", NOTE_MIX, MIX, "6/C18"),
     "C19": ("exploration", "Bounded only: exit-code/output contract of cli.main over generated file sets (in-process and as subprocess).", NOTE_BND, BND, "6/C19"),
-    "C20": ("other", "Bounded, exhaustive small scope: count, octal_to_decimal, crop/just. Proved (supporting): call shape of the octal_to_dec chain, path helpers used by count.", NOTE_MIX, MIX, "6/C20"),
+    "C20": ("other", "Proved for all closed arguments from the real text of isla_predicates.crop/just/count/octal_to_dec_both_trees: the verdict is TRUE exactly when the argument already has the requested width (crop: needs no cropping), every proposed replacement has exactly the requested width, keeps the argument's nonterminal and is the padded/cropped argument; count is TRUE exactly when the needle count equals the number; octal_to_decimal on two trees is TRUE exactly when the numbers agree -- over ASSUMED contracts of the parser (C10), str(tree), int(str) and str.ljust/rjust. Also call shape of the octal_to_dec chain. Bounded, exhaustive small scope: the same predicates end-to-end incl. the conversion branches of octal_to_decimal and count's tree completion.", NOTE_MIX, MIX, "6/C20"),
     "C21": ("exploration", "Bounded only: solutions for the shipped formalizations pass independent validators.", NOTE_BND, BND, "6/C21"),
     "C22": ("exploration", "Bounded only: equal solution sequences in pairs of fresh processes with equal hash seed and random seed; static scan for nondeterminism sources.", NOTE_BND, BND, "6/C22"),
 }
